@@ -86,6 +86,7 @@ EXPORTERS = [
     ("flattened", lambda d: observe.dobs_ordered(d.flattened())),
 ]
 EXP = dict(EXPORTERS)
+JSON_OPTS = {"json": {}, "json-indent-sorted": {"indent": 2, "sort_keys": True}}
 
 
 def full_obs(doc):
@@ -260,6 +261,14 @@ class C13(spec.Spec):
         for k, name in enumerate(seq):
             last = call(name, doc)
             out.transitions += 1
+            if name in JSON_OPTS and last[0] == "ok":
+                # the text is what the standard library prints for the same data under the options of THIS call
+                # (and of no earlier one)
+                import json
+                if json.dumps(json.loads(last[1]), **JSON_OPTS[name]) != last[1]:
+                    out.violation("export-text-not-under-the-options-of-this-call", name,
+                                  {"text": last[1][:300], "step": k}, hh)
+                    return
             now = full_obs(doc)
             if now != base:
                 what = "content" if now[0] != base[0] else "namespaces"
